@@ -921,4 +921,447 @@ theorem printFinite_shape (compressed : Bool) (x : Rat) :
       · intro e; apply hlast; rw [List.getLast?_eq_some_getLast hF0, e]
       · exact (digit_ne_dot _ (dF _ (List.getLast_mem hF0))).1
 
+
+/-! ### no superfluous leading zero -/
+
+def leadB (compressed : Bool) (body : List Char) : Bool :=
+  match body with
+  | '0' :: c :: _ => if compressed then false else c == '.'
+  | _ => true
+
+theorem leadOK_eq (compressed : Bool) (s : List Char) : leadOK compressed s = leadB compressed (stripMinus s) := rfl
+
+theorem divRoundEven_ge (num den : Nat) : num / den ≤ divRoundEven num den := by
+  unfold divRoundEven
+  simp only
+  split
+  · omega
+  · split
+    · omega
+    · split <;> omega
+
+theorem scaled10_ge (x : Rat) (h : ¬ absQ x < 1) : 10000000000 ≤ scaled10 x := by
+  have hd : 0 < x.den := x.den_pos
+  have hX := absQ_mul_den x
+  have h1 : (1 : Rat) ≤ absQ x := by grind
+  have h2 := Rat.mul_le_mul_of_nonneg_right h1 (Rat.natCast_nonneg (a := x.den))
+  rw [hX, Rat.one_mul] at h2
+  have h3 : x.den ≤ x.num.natAbs := Rat.natCast_le_natCast.1 h2
+  unfold scaled10
+  refine Nat.le_trans ?_ (divRoundEven_ge _ _)
+  rw [Nat.le_div_iff_mul_le hd]
+  rw [Nat.mul_comm]
+  exact Nat.mul_le_mul_right _ h3
+
+theorem leadB_body (compressed : Bool) (I0 F' : List Char)
+    (hh0 : I0.head? = some '0' → I0 = ['0'])
+    (hc : compressed = true → ¬(I0 = ['0'] ∧ F' ≠ [])) :
+    leadB compressed (I0 ++ (if F' = [] then [] else '.' :: F')) = true := by
+  cases hI : I0 with
+  | nil =>
+    by_cases hF : F' = []
+    · simp [hF, leadB]
+    · simp only [hF, if_false, List.nil_append]
+      unfold leadB
+      split
+      · rename_i c r heq; injection heq with h1 _; exact absurd h1 (by decide)
+      · rfl
+  | cons a r =>
+    by_cases ha : a = '0'
+    · have h1 : I0 = ['0'] := hh0 (by rw [hI, ha]; rfl)
+      rw [hI] at h1
+      injection h1 with _ hr
+      subst ha; subst hr
+      by_cases hF : F' = []
+      · simp [hF, leadB]
+      · cases compressed with
+        | true => exact absurd ⟨hI, hF⟩ (hc rfl)
+        | false => simp [hF, leadB]
+    · unfold leadB
+      split
+      · rename_i c r' heq
+        simp only [List.cons_append] at heq
+        injection heq with h1 _
+        exact absurd h1 ha
+      · rfl
+
+theorem lead_special (compressed : Bool) : leadOK compressed ['0'] = true := by
+  cases compressed <;> rfl
+
+theorem printFinite_lead (compressed : Bool) (x : Rat) :
+    leadOK compressed (printFinite false compressed x) = true := by
+  rw [printFinite_unfold, printAbs_char]
+  generalize hI : (if (compressed && decide (absQ x < 1)) = true ∧ scaled10 x / 10000000000 = 0 then []
+      else natDigits (scaled10 x / 10000000000)) = I0
+  generalize hF : trimEnd '0' (fracDigits 10 (scaled10 x % 10000000000)) = F'
+  obtain ⟨dI, _, _, _, _, _, hz, _, hh0⟩ :=
+    print_digits_value (compressed && decide (absQ x < 1)) (scaled10 x) I0 F' hI.symm hF.symm
+  have hhead := body_head I0 F' dI
+  have hc : compressed = true → ¬(I0 = ['0'] ∧ F' ≠ []) := by
+    intro hcomp hcon
+    have h1 := hcon.1
+    have hip := hz h1
+    by_cases hlt : absQ x < 1
+    · have hcond : (compressed && decide (absQ x < 1)) = true ∧ scaled10 x / 10000000000 = 0 :=
+        ⟨by rw [hcomp, decide_eq_true hlt]; rfl, hip⟩
+      rw [← hI, if_pos hcond] at h1
+      cases h1
+    · have h2 := scaled10_ge x hlt
+      have h3 := Nat.div_pos h2 (by decide : 0 < 10000000000)
+      rw [hip] at h3
+      exact absurd h3 (by decide)
+  have hb := leadB_body compressed I0 F' hh0 hc
+  generalize hbody : I0 ++ (if F' = [] then [] else '.' :: F') = body at *
+  by_cases hsp : special ((if x < 0 then ['-'] else []) ++ body)
+  · rw [if_pos hsp]; exact lead_special compressed
+  · rw [if_neg hsp, leadOK_eq]
+    by_cases hx : x < 0
+    · rw [if_pos hx]
+      have e : stripMinus (['-'] ++ body) = body := rfl
+      rw [e]; exact hb
+    · rw [if_neg hx]
+      have e2 : stripMinus body = body := stripMinus_other body (fun r h => (hhead '-' r h).1 rfl)
+      rw [List.nil_append, e2]
+      exact hb
+
+/-! ### `rnd53` is round-to-nearest -/
+
+/-! ### `pow2` is the integer power of two -/
+theorem pow2_eq_zpow (e : Int) : pow2 e = (2 : Rat) ^ e := by
+  unfold pow2
+  by_cases h : e ≥ 0
+  · simp only [h, if_true]
+    have : e = (e.toNat : Int) := by omega
+    conv => rhs; rw [this]
+    rw [Rat.zpow_natCast, Rat.natCast_pow]; rfl
+  · simp only [h, if_false]
+    have : e = -((-e).toNat : Int) := by omega
+    conv => rhs; rw [this]
+    rw [Rat.zpow_neg, Rat.zpow_natCast, Rat.natCast_pow, Rat.div_def, Rat.one_mul]; rfl
+
+theorem pow2_pos (e : Int) : 0 < pow2 e := by
+  rw [pow2_eq_zpow]; exact Rat.zpow_pos (by decide)
+
+theorem pow2_add (a b : Int) : pow2 (a + b) = pow2 a * pow2 b := by
+  simp only [pow2_eq_zpow]; exact Rat.zpow_add (by decide) a b
+
+theorem pow2_natCast (n : Nat) : pow2 (n : Int) = ((2 ^ n : Nat) : Rat) := by
+  unfold pow2; simp
+
+theorem pow2_succ (e : Int) : pow2 (e + 1) = 2 * pow2 e := by
+  rw [pow2_add, Rat.mul_comm]; congr 1
+
+theorem pow2_neg_mul (a : Int) : pow2 (-a) * pow2 a = 1 := by
+  rw [← pow2_add]; have : -a + a = 0 := by omega
+  rw [this]; rfl
+
+/-- `a ≤ b / c ↔ a * c ≤ b` -/
+theorem le_div_iff' (a b c : Rat) (hc : 0 < c) : a ≤ b / c ↔ a * c ≤ b := by
+  constructor
+  · intro h; rcases Rat.le_iff_lt_or_eq.1 h with h | h
+    · exact Rat.le_of_lt ((Rat.lt_div_iff hc).1 h)
+    · rw [h, Rat.div_mul_cancel (by grind)]; exact Rat.le_refl
+  · intro h
+    apply Rat.not_lt.1
+    intro h2
+    have := (Rat.div_lt_iff hc).1 h2
+    grind
+
+theorem natCast_pos' (n : Nat) (h : 0 < n) : (0 : Rat) < (n : Rat) := Rat.natCast_pos.2 h
+
+/-- `geP2` decides `2^d ≤ num/den` -/
+theorem geP2_iff (num den : Nat) (hd : 0 < den) (d : Int) :
+    geP2 num den d = true ↔ pow2 d ≤ (num : Rat) / (den : Rat) := by
+  have hdq := natCast_pos' den hd
+  rw [le_div_iff' _ _ _ hdq]
+  unfold geP2 pow2
+  by_cases h : d ≥ 0
+  · simp only [h, if_true, decide_eq_true_eq]
+    rw [← Rat.natCast_mul, Rat.natCast_le_natCast, Nat.mul_comm]
+  · simp only [h, if_false, decide_eq_true_eq]
+    have hp : (0 : Rat) < ((2 ^ (-d).toNat : Nat) : Rat) := natCast_pos' _ (Nat.pow_pos (by decide))
+    generalize (2 ^ (-d).toNat : Nat) = P at *
+    constructor
+    · intro hh
+      have : (den : Rat) ≤ (num : Rat) * (P : Rat) := by
+        rw [← Rat.natCast_mul]; exact Rat.natCast_le_natCast.2 hh
+      have e : 1 / (P : Rat) * (den : Rat) = (den : Rat) / (P : Rat) := by grind
+      rw [e]
+      apply Rat.not_lt.1
+      intro h2
+      have := (Rat.lt_div_iff hp).1 h2
+      grind
+    · intro hh
+      have e : 1 / (P : Rat) * (den : Rat) = (den : Rat) / (P : Rat) := by grind
+      rw [e] at hh
+      have : (den : Rat) ≤ (num : Rat) * (P : Rat) := by
+        apply Rat.not_lt.1
+        intro h2
+        have := (Rat.lt_div_iff hp).2 h2
+        grind
+      rw [← Rat.natCast_mul] at this
+      exact Rat.natCast_le_natCast.1 this
+
+theorem div_lt_of (a c d : Rat) (hd : 0 < d) (h : a < c * d) : a / d < c := (Rat.div_lt_iff hd).2 h
+
+theorem binExp_spec (num den : Nat) (hn : 0 < num) (hd : 0 < den) :
+    pow2 (binExp num den) ≤ (num : Rat) / (den : Rat) ∧ (num : Rat) / (den : Rat) < pow2 (binExp num den + 1) := by
+  have hdq := natCast_pos' den hd
+  have l1 : ((2 ^ num.log2 : Nat) : Rat) ≤ (num : Rat) := Rat.natCast_le_natCast.2 (Nat.log2_self_le (by omega))
+  have l2 : (num : Rat) < ((2 ^ (num.log2 + 1) : Nat) : Rat) := Rat.natCast_lt_natCast.2 Nat.lt_log2_self
+  have l3 : ((2 ^ den.log2 : Nat) : Rat) ≤ (den : Rat) := Rat.natCast_le_natCast.2 (Nat.log2_self_le (by omega))
+  have l4 : (den : Rat) < ((2 ^ (den.log2 + 1) : Nat) : Rat) := Rat.natCast_lt_natCast.2 Nat.lt_log2_self
+  rw [← pow2_natCast] at l1 l2 l3 l4
+  generalize hdd : (num.log2 : Int) - (den.log2 : Int) = d
+  -- upper: Q < 2^(d+1)
+  have up : (num : Rat) / (den : Rat) < pow2 (d + 1) := by
+    apply div_lt_of _ _ _ hdq
+    have e : pow2 (d + 1) * pow2 (den.log2 : Int) = pow2 ((num.log2 + 1 : Nat) : Int) := by
+      rw [← pow2_add]; congr 1; push_cast; omega
+    have := Rat.mul_le_mul_of_nonneg_left l3 (Rat.le_of_lt (pow2_pos (d + 1)))
+    rw [e] at this
+    grind
+  -- lower: 2^(d-1) ≤ Q
+  have lo : pow2 (d - 1) ≤ (num : Rat) / (den : Rat) := by
+    rw [le_div_iff' _ _ _ hdq]
+    have e : pow2 (d - 1) * pow2 ((den.log2 + 1 : Nat) : Int) = pow2 (num.log2 : Int) := by
+      rw [← pow2_add]; congr 1; push_cast; omega
+    have := Rat.mul_le_mul_of_nonneg_left (Rat.le_of_lt l4) (Rat.le_of_lt (pow2_pos (d - 1)))
+    rw [e] at this
+    exact Rat.le_trans this l1
+  unfold binExp
+  simp only [hdd]
+  by_cases hg : geP2 num den d = true
+  · simp only [hg, if_true]
+    exact ⟨(geP2_iff num den hd d).1 hg, up⟩
+  · have hg' : geP2 num den d = false := by simpa using hg
+    simp only [hg', Bool.false_eq_true, if_false]
+    refine ⟨lo, ?_⟩
+    have : d - 1 + 1 = d := by omega
+    rw [this]
+    apply Rat.not_le.1
+    intro h; exact hg ((geP2_iff num den hd d).2 h)
+
+theorem dre_rat (N D : Nat) (hD : 0 < D) :
+    2 * ((N : Rat) / (D : Rat)) ≤ 2 * (divRoundEven N D : Rat) + 1 ∧
+    2 * (divRoundEven N D : Rat) ≤ 2 * ((N : Rat) / (D : Rat)) + 1 := by
+  obtain ⟨c1, c2⟩ := divRoundEven_close N D hD
+  have hDq := natCast_pos' D hD
+  generalize divRoundEven N D = m at *
+  have c1' : 2 * (N : Rat) ≤ 2 * ((m : Rat) * (D : Rat)) + (D : Rat) := by
+    have := Rat.natCast_le_natCast.2 c1
+    simpa [Rat.natCast_add, Rat.natCast_mul] using this
+  have c2' : 2 * ((m : Rat) * (D : Rat)) ≤ 2 * (N : Rat) + (D : Rat) := by
+    have := Rat.natCast_le_natCast.2 c2
+    simpa [Rat.natCast_add, Rat.natCast_mul] using this
+  have hx : (N : Rat) / (D : Rat) * (D : Rat) = (N : Rat) := Rat.div_mul_cancel (by grind)
+  generalize (N : Rat) / (D : Rat) = X at *
+  constructor
+  · apply Rat.le_of_mul_le_mul_right _ hDq
+    have e : 2 * X * (D : Rat) = 2 * (X * (D : Rat)) := by grind
+    rw [e, hx]; grind
+  · apply Rat.le_of_mul_le_mul_right _ hDq
+    have e : (2 * X + 1) * (D : Rat) = 2 * (X * (D : Rat)) + (D : Rat) := by grind
+    rw [e, hx]; grind
+
+theorem round_core (N D : Nat) (hD : 0 < D) (p Q : Rat) (hp : 0 < p) (hX : (N : Rat) / (D : Rat) * p = Q)
+    (hlo : p * 4503599627370496 ≤ Q) (hhi : Q < p * 9007199254740992) :
+    4503599627370496 ≤ divRoundEven N D ∧ divRoundEven N D ≤ 9007199254740992 ∧
+    2 * absQ ((divRoundEven N D : Rat) * p - Q) ≤ p := by
+  obtain ⟨d1, d2⟩ := dre_rat N D hD
+  generalize divRoundEven N D = m at *
+  generalize (N : Rat) / (D : Rat) = X at *
+  subst hX
+  have x1 : (4503599627370496 : Rat) ≤ X := by
+    apply Rat.le_of_mul_le_mul_right _ hp
+    grind
+  have x2 : X < 9007199254740992 := by
+    apply Rat.lt_of_mul_lt_mul_right _ (Rat.le_of_lt hp)
+    grind
+  refine ⟨?_, ?_, ?_⟩
+  · have h : (9007199254740992 : Rat) ≤ 2 * (m : Rat) + 1 := by grind
+    have : 9007199254740992 ≤ 2 * m + 1 := by exact_mod_cast h
+    omega
+  · have h : 2 * (m : Rat) < 18014398509481985 := by grind
+    have : 2 * m < 18014398509481985 := by exact_mod_cast h
+    omega
+  · have e : (m : Rat) * p - X * p = ((m : Rat) - X) * p := by grind
+    rw [e]
+    unfold absQ
+    split
+    · have : 2 * -(((m : Rat) - X) * p) = (2 * X - 2 * (m : Rat)) * p := by grind
+      rw [this]
+      have := Rat.mul_le_mul_of_nonneg_right (show 2 * X - 2 * (m : Rat) ≤ 1 by grind) (Rat.le_of_lt hp)
+      grind
+    · have : 2 * (((m : Rat) - X) * p) = (2 * (m : Rat) - 2 * X) * p := by grind
+      rw [this]
+      have := Rat.mul_le_mul_of_nonneg_right (show 2 * (m : Rat) - 2 * X ≤ 1 by grind) (Rat.le_of_lt hp)
+      grind
+
+theorem pow2_52 : pow2 52 = 4503599627370496 := by decide +kernel
+theorem pow2_53 : pow2 53 = 9007199254740992 := by decide +kernel
+
+theorem rndPosME_spec (num den : Nat) (hn : 0 < num) (hd : 0 < den) :
+    4503599627370496 ≤ (rndPosME num den).1 ∧ (rndPosME num den).1 ≤ 9007199254740992 ∧
+    pow2 ((rndPosME num den).2 + 52) ≤ (num : Rat) / (den : Rat) ∧
+    (num : Rat) / (den : Rat) < pow2 ((rndPosME num den).2 + 53) ∧
+    2 * absQ (((rndPosME num den).1 : Rat) * pow2 (rndPosME num den).2 - (num : Rat) / (den : Rat))
+      ≤ pow2 (rndPosME num den).2 := by
+  obtain ⟨b1, b2⟩ := binExp_spec num den hn hd
+  have hdq := natCast_pos' den hd
+  unfold rndPosME
+  simp only
+  generalize hb : binExp num den = b at *
+  generalize he : b - 52 = e
+  have e1 : e + 52 = b := by omega
+  have e2 : e + 53 = b + 1 := by omega
+  rw [e1, e2]
+  have hp := pow2_pos e
+  have hlo : pow2 e * 4503599627370496 ≤ (num : Rat) / (den : Rat) := by
+    rw [← pow2_52, ← pow2_add, e1]; exact b1
+  have hhi : (num : Rat) / (den : Rat) < pow2 e * 9007199254740992 := by
+    rw [← pow2_53, ← pow2_add, e2]; exact b2
+  by_cases hge : e ≥ 0
+  · simp only [hge, if_true]
+    have hk : (0 : Rat) < ((2 ^ e.toNat : Nat) : Rat) := natCast_pos' _ (Nat.pow_pos (by decide))
+    have hpe : pow2 e = ((2 ^ e.toNat : Nat) : Rat) := by unfold pow2; simp [hge]
+    have hX : ((num : Nat) : Rat) / ((den * 2 ^ e.toNat : Nat) : Rat) * pow2 e = (num : Rat) / (den : Rat) := by
+      rw [hpe, Rat.natCast_mul]
+      generalize ((2 ^ e.toNat : Nat) : Rat) = P at *
+      grind
+    have := round_core num (den * 2 ^ e.toNat) (Nat.mul_pos hd (Nat.pow_pos (by decide))) (pow2 e) _ hp hX hlo hhi
+    exact ⟨this.1, this.2.1, b1, b2, this.2.2⟩
+  · simp only [hge, if_false]
+    have hk : (0 : Rat) < ((2 ^ (-e).toNat : Nat) : Rat) := natCast_pos' _ (Nat.pow_pos (by decide))
+    have hpe : pow2 e = 1 / ((2 ^ (-e).toNat : Nat) : Rat) := by unfold pow2; simp [hge]
+    have hX : ((num * 2 ^ (-e).toNat : Nat) : Rat) / (den : Rat) * pow2 e = (num : Rat) / (den : Rat) := by
+      rw [hpe, Rat.natCast_mul]
+      generalize ((2 ^ (-e).toNat : Nat) : Rat) = P at *
+      grind
+    have := round_core (num * 2 ^ (-e).toNat) den hd (pow2 e) _ hp hX hlo hhi
+    exact ⟨this.1, this.2.1, b1, b2, this.2.2⟩
+
+theorem pos_eq_natAbs_div (q : Rat) (hq : 0 < q) : q = (q.num.natAbs : Rat) / (q.den : Rat) ∧ 0 < q.num.natAbs := by
+  have h := absQ_mul_den q
+  have ha : absQ q = q := by unfold absQ; split <;> grind
+  rw [ha] at h
+  have hd : (0 : Rat) < (q.den : Rat) := natCast_pos' _ q.den_pos
+  constructor
+  · rw [← h, Rat.mul_div_cancel (by grind)]
+  · have : (0 : Rat) < (q.num.natAbs : Rat) := by rw [← h]; exact Rat.mul_pos hq hd
+    exact Rat.natCast_pos.1 this
+
+/-- `rndPos q` (q > 0) is `m·2^e` with a 53-bit mantissa in the binade of `q`, within half a unit in
+    the last place of `q`, and no multiple of `2^e` is nearer. -/
+theorem rndPos_spec (q : Rat) (hq : 0 < q) :
+    ∃ (m : Nat) (e : Int), rndPos q = (m : Rat) * pow2 e ∧ 4503599627370496 ≤ m ∧ m ≤ 9007199254740992 ∧
+      pow2 (e + 52) ≤ q ∧ q < pow2 (e + 53) ∧ 2 * absQ (rndPos q - q) ≤ pow2 e ∧
+      ∀ j : Int, absQ (rndPos q - q) ≤ absQ ((j : Rat) * pow2 e - q) := by
+  obtain ⟨hq', hn⟩ := pos_eq_natAbs_div q hq
+  obtain ⟨s1, s2, s3, s4, s5⟩ := rndPosME_spec q.num.natAbs q.den hn q.den_pos
+  rw [← hq'] at s3 s4 s5
+  refine ⟨(rndPosME q.num.natAbs q.den).1, (rndPosME q.num.natAbs q.den).2, rfl, s1, s2, s3, s4, ?_, ?_⟩
+  · exact s5
+  · intro j
+    have hr : rndPos q = ((rndPosME q.num.natAbs q.den).1 : Rat) * pow2 (rndPosME q.num.natAbs q.den).2 := rfl
+    rw [hr]
+    generalize (rndPosME q.num.natAbs q.den).1 = m at *
+    generalize (rndPosME q.num.natAbs q.den).2 = e at *
+    have hp := pow2_pos e
+    generalize pow2 e = p at *
+    rcases Int.lt_trichotomy j (m : Int) with h | h | h
+    · have h1 : (j : Rat) + 1 ≤ (m : Rat) := by
+        have : j + 1 ≤ (m : Int) := by omega
+        have := Rat.intCast_le_intCast.2 this
+        simpa [Rat.intCast_add, Rat.intCast_natCast] using this
+      have h2 := Rat.mul_le_mul_of_nonneg_right h1 (Rat.le_of_lt hp)
+      unfold absQ at *
+      split at s5 <;> split <;> split <;> grind
+    · subst h
+      have : ((m : Int) : Rat) = (m : Rat) := Rat.intCast_natCast m
+      rw [this]; exact Rat.le_refl
+    · have h1 : (m : Rat) + 1 ≤ (j : Rat) := by
+        have : (m : Int) + 1 ≤ j := by omega
+        have := Rat.intCast_le_intCast.2 this
+        simpa [Rat.intCast_add, Rat.intCast_natCast] using this
+      have h2 := Rat.mul_le_mul_of_nonneg_right h1 (Rat.le_of_lt hp)
+      unfold absQ at *
+      split at s5 <;> split <;> split <;> grind
+
+theorem absQ_of_pos (q : Rat) (h : 0 < q) : absQ q = q := by unfold absQ; split <;> grind
+theorem absQ_of_neg (q : Rat) (h : q < 0) : absQ q = -q := by unfold absQ; split <;> grind
+
+theorem rndPos_pos (q : Rat) (hq : 0 < q) : 0 < rndPos q := by
+  obtain ⟨m, e, h1, h2, _⟩ := rndPos_spec q hq
+  rw [h1]
+  exact Rat.mul_pos (natCast_pos' m (by omega)) (pow2_pos e)
+
+/-- **`rnd53` is round-to-nearest to 53 significant bits** (unbounded exponent): for every non-zero `q`
+    the result is `±m·2^e` with `2^52 ≤ m ≤ 2^53` in the binade of `q` (`2^(e+52) ≤ |q| < 2^(e+53)`), its
+    error is at most half a unit in the last place, and no multiple of `2^e` is nearer to `q`. -/
+theorem rnd53_nearest (q : Rat) (hq : q ≠ 0) :
+    ∃ (m : Nat) (e : Int), absQ (rnd53 q) = (m : Rat) * pow2 e ∧ 4503599627370496 ≤ m ∧ m ≤ 9007199254740992 ∧
+      pow2 (e + 52) ≤ absQ q ∧ absQ q < pow2 (e + 53) ∧ 2 * absQ (rnd53 q - q) ≤ pow2 e ∧
+      ∀ j : Int, absQ (rnd53 q - q) ≤ absQ ((j : Rat) * pow2 e - absQ q) := by
+  unfold rnd53
+  simp only [hq, if_false]
+  by_cases hn : q < 0
+  · simp only [hn, if_true]
+    have hpos : 0 < -q := by grind
+    obtain ⟨m, e, h1, h2, h3, h4, h5, h6, h7⟩ := rndPos_spec (-q) hpos
+    have hrp := rndPos_pos (-q) hpos
+    refine ⟨m, e, ?_, h2, h3, ?_, ?_, ?_, ?_⟩
+    · rw [absQ_neg, absQ_of_pos _ hrp, h1]
+    · rw [absQ_of_neg q hn]; exact h4
+    · rw [absQ_of_neg q hn]; exact h5
+    · have : -rndPos (-q) - q = -(rndPos (-q) - -q) := by grind
+      rw [this, absQ_neg]; exact h6
+    · intro j
+      have : -rndPos (-q) - q = -(rndPos (-q) - -q) := by grind
+      rw [this, absQ_neg, absQ_of_neg q hn]; exact h7 j
+  · simp only [hn, if_false]
+    have hpos : 0 < q := by grind
+    obtain ⟨m, e, h1, h2, h3, h4, h5, h6, h7⟩ := rndPos_spec q hpos
+    have hrp := rndPos_pos q hpos
+    refine ⟨m, e, ?_, h2, h3, ?_, ?_, h6, ?_⟩
+    · rw [absQ_of_pos _ hrp, h1]
+    · rw [absQ_of_pos q hpos]; exact h4
+    · rw [absQ_of_pos q hpos]; exact h5
+    · intro j; rw [absQ_of_pos q hpos]; exact h7 j
+
+/-- relative error at most 2⁻⁵³ -/
+theorem rnd53_relative (q : Rat) (hq : q ≠ 0) : absQ (rnd53 q - q) * 9007199254740992 ≤ absQ q := by
+  obtain ⟨m, e, _, _, _, h4, _, h6, _⟩ := rnd53_nearest q hq
+  rw [pow2_add, pow2_52] at h4
+  generalize absQ (rnd53 q - q) = err at *
+  generalize pow2 e = p at *
+  grind
+
+/-- ties go to the even mantissa (the scaled quotient `N/D` is what `rndPosME` rounds) -/
+theorem divRoundEven_tie_even (N D : Nat) (h : 2 * (N % D) = D) : divRoundEven N D % 2 = 0 := by
+  unfold divRoundEven
+  simp only
+  have h1 : ¬ 2 * (N % D) < D := by omega
+  have h2 : ¬ D < 2 * (N % D) := by omega
+  simp only [h1, h2, if_false]
+  split <;> omega
+
+/-! ### transitivity of the executed comparison, guarded -/
+theorem fuzzyEqF_bucket (a b : Rat) (h : fuzzyEqF a b = true) :
+    roundHA (rnd53 (a * invEps)) = roundHA (rnd53 (b * invEps)) := by
+  unfold fuzzyEqF at h
+  simp only [Bool.or_eq_true, Bool.and_eq_true, beq_iff_eq, decide_eq_true_eq] at h
+  rcases h with h | h
+  · rw [h]
+  · exact h.2
+
+/-- transitivity of the executed `fuzzy_equals` can only fail through the `|a − c| ≤ ε` conjunct:
+    the bucket part is transitive -/
+theorem fuzzyEqF_trans_guarded (a b c : Rat) (h1 : fuzzyEqF a b = true) (h2 : fuzzyEqF b c = true)
+    (hg : absQ (rnd53 (a - c)) ≤ epsF) : fuzzyEqF a c = true := by
+  have hb := (fuzzyEqF_bucket a b h1).trans (fuzzyEqF_bucket b c h2)
+  unfold fuzzyEqF
+  simp only [Bool.or_eq_true, Bool.and_eq_true, beq_iff_eq, decide_eq_true_eq]
+  exact Or.inr ⟨hg, hb⟩
+
 end Grass.Num
